@@ -145,84 +145,99 @@ theorem afterPass_midCall (oq : Option PassPc) : (afterPass oq).midCall = true :
 /-- the variant: what the winner `w` and the loop still have to do -/
 def variant (s : State) (w : Nat) : Nat := closerM s.cells.length (s.closers w) + loopM s.cells.length s.loop
 
-/-- some enabled step decreases the variant and keeps the winner inside `Close` or returns it -/
+/-- some enabled step decreases the variant and keeps the winner inside `Close` or returns it; it is a step of the
+winner or of the loop goroutine: every other `Close` call stays where it is -/
 theorem progress (s : State) (h : Ctl s) (w : Nat) (hmid : (s.closers w).midCall = true) :
     ∃ e s', step s e = some s' ∧ s'.cells.length = s.cells.length ∧ variant s' w < variant s w ∧
-      ((s'.closers w).midCall = true ∨ ∃ r, s'.closers w = .returned r) := by
+      ((s'.closers w).midCall = true ∨ ∃ r, s'.closers w = .returned r) ∧
+      (∀ t, t ≠ w → s'.closers t = s.closers t) := by
   have hw := h.winner_of w (by cases hp : s.closers w <;> rw [hp] at hmid <;> simp [CPc.midCall, ph] at hmid ⊢)
   cases hp : s.closers w with
   | start => rw [hp] at hmid; simp [CPc.midCall] at hmid
   | returned r => rw [hp] at hmid; simp [CPc.midCall] at hmid
   | returnedNil => rw [hp] at hmid; simp [CPc.midCall] at hmid
+  | waitWinner => rw [hp] at hmid; simp [CPc.midCall] at hmid
   | won =>
     refine ⟨.closer w 0, { setC s w .doneClosedPc with doneClosed := true }, by simp only [step, hp], rfl, ?_,
-      Or.inl ?_⟩
+      Or.inl ?_, ?_⟩
     · simp [variant, setC, hp, closerM]
     · simp [setC, CPc.midCall]
+    · intro t ht; simp [setC, ht]
   | purgePc =>
     refine ⟨.closer w 0, setC (purgeAll s) w .flushPc, by simp only [step, hp], by simp [setC, purgeAll], ?_,
-      Or.inl ?_⟩
+      Or.inl ?_, ?_⟩
     · simp [variant, setC, purgeAll, hp, closerM]
     · simp [setC, CPc.midCall]
+    · intro t ht; simp [setC, ht, purgeAll]
   | flushPc =>
     refine ⟨.closer w 0, { setC s w .reporterClose with log := .flush :: s.log }, by simp only [step, hp], rfl, ?_,
-      Or.inl ?_⟩
+      Or.inl ?_, ?_⟩
     · simp [variant, setC, hp, closerM]
     · simp [setC, CPc.midCall]
+    · intro t ht; simp [setC, ht]
   | reporterClose =>
     by_cases hcl : s.closable = true
-    · refine ⟨.closer w 0, { setC s w (.returned s.err) with log := .reporterClose :: s.log, returns := (w, s.err) :: s.returns },
-        by simp [step, hp, hcl], rfl, ?_, Or.inr ⟨s.err, ?_⟩⟩
+    · refine ⟨.closer w 0,
+        { setC s w (.returned s.err) with log := .reporterClose :: s.log, returns := (w, s.err) :: s.returns, closeDone := true },
+        by simp [step, hp, hcl], rfl, ?_, Or.inr ⟨s.err, ?_⟩, ?_⟩
       · simp [variant, setC, hp, closerM]
       · simp [setC]
-    · refine ⟨.closer w 0, { setC s w (.returned none) with returns := (w, none) :: s.returns },
-        by simp [step, hp, hcl], rfl, ?_, Or.inr ⟨none, ?_⟩⟩
+      · intro t ht; simp [setC, ht]
+    · refine ⟨.closer w 0, { setC s w (.returned none) with returns := (w, none) :: s.returns, closeDone := true },
+        by simp [step, hp, hcl], rfl, ?_, Or.inr ⟨none, ?_⟩, ?_⟩
       · simp [variant, setC, hp, closerM]
       · simp [setC]
+      · intro t ht; simp [setC, ht]
   | pass p =>
     obtain ⟨ch, s1, oq, hq⟩ := passStep_enabled s p
     have hlen := passStep_length hq
     have hloop : s1.loop = s.loop := by obtain ⟨c, l, rfl⟩ := passStep_frame hq; rfl
     have hm := passStep_closerM hq
-    refine ⟨.closer w ch, setC s1 w (afterPass oq), by simp only [step, hp, hq], hlen, ?_, Or.inl ?_⟩
+    refine ⟨.closer w ch, setC s1 w (afterPass oq), by simp only [step, hp, hq], hlen, ?_, Or.inl ?_, ?_⟩
     · simp only [variant, setC, hp, if_true, hlen, hloop]; omega
     · simp [setC, afterPass_midCall]
+    · intro t ht; simp [setC, ht, (show s1.closers = s.closers by obtain ⟨c, l, rfl⟩ := passStep_frame hq; rfl)]
   | doneClosedPc =>
     have hdone : s.doneClosed = true := by
       have := h.done_iff; rw [wpc_of_winner hw, hp] at this; simpa [ph] using this
     have hclosed : s.closed = true := by rw [h.closed_iff, hw]; rfl
     cases hl : s.loop with
     | exited =>
-      refine ⟨.closer w 0, setC s w (.pass .begin), by simp [step, hp, hl], rfl, ?_, Or.inl ?_⟩
+      refine ⟨.closer w 0, setC s w (.pass .begin), by simp [step, hp, hl], rfl, ?_, Or.inl ?_, ?_⟩
       · simp [variant, setC, hp, closerM, passM] <;> omega
       · simp [setC, CPc.midCall]
+      · intro t ht; simp [setC, ht]
     | waiting =>
-      refine ⟨.exit, { s with loop := .exited }, by simp [step, hl, hdone], rfl, ?_, Or.inl ?_⟩
+      refine ⟨.exit, { s with loop := .exited }, by simp [step, hl, hdone], rfl, ?_, Or.inl ?_, ?_⟩
       · simp [variant, hl, loopM]
       · simp [hp, CPc.midCall]
+      · intro t _; rfl
     | ticked =>
-      refine ⟨.loop 0, { s with loop := .waiting }, by simp [step, hl, hclosed], rfl, ?_, Or.inl ?_⟩
+      refine ⟨.loop 0, { s with loop := .waiting }, by simp [step, hl, hclosed], rfl, ?_, Or.inl ?_, ?_⟩
       · simp [variant, hl, loopM] <;> omega
       · simp [hp, CPc.midCall]
+      · intro t _; rfl
     | pass p =>
       obtain ⟨ch, s1, oq, hq⟩ := passStep_enabled s p
       have hlen := passStep_length hq
       have hcl : s1.closers = s.closers := by obtain ⟨c, l, rfl⟩ := passStep_frame hq; rfl
       cases oq with
       | none =>
-        refine ⟨.loop ch, { s1 with loop := .waiting }, by simp only [step, hl, hq], hlen, ?_, Or.inl ?_⟩
+        refine ⟨.loop ch, { s1 with loop := .waiting }, by simp only [step, hl, hq], hlen, ?_, Or.inl ?_, ?_⟩
         · simp only [variant, hl, loopM, hlen, hcl]; omega
         · simp [hcl, hp, CPc.midCall]
+        · intro t _; show s1.closers t = _; rw [hcl]
       | some q =>
         have hm := passStep_measure hq
-        refine ⟨.loop ch, { s1 with loop := .pass q }, by simp only [step, hl, hq], hlen, ?_, Or.inl ?_⟩
+        refine ⟨.loop ch, { s1 with loop := .pass q }, by simp only [step, hl, hq], hlen, ?_, Or.inl ?_, ?_⟩
         · simp only [variant, hl, loopM, hlen, hcl]; omega
         · simp [hcl, hp, CPc.midCall]
+        · intro t _; show s1.closers t = _; rw [hcl]
 
 /-- from every state satisfying the control invariant in which the winner is inside `Close`, some
-schedule makes it return -/
+schedule (of steps of the winner and of the loop goroutine: no other `Close` call moves) makes it return -/
 theorem can_complete (n : Nat) : ∀ (s : State), Ctl s → ∀ w, (s.closers w).midCall = true → variant s w ≤ n →
-    ∃ es s' r, run s es = some s' ∧ s'.closers w = .returned r := by
+    ∃ es s' r, run s es = some s' ∧ s'.closers w = .returned r ∧ ∀ t, t ≠ w → s'.closers t = s.closers t := by
   induction n with
   | zero =>
     intro s h w hmid hv
@@ -230,10 +245,11 @@ theorem can_complete (n : Nat) : ∀ (s : State), Ctl s → ∀ w, (s.closers w)
     omega
   | succ n ih =>
     intro s h w hmid hv
-    obtain ⟨e, s1, hs, _, hlt, hnext⟩ := progress s h w hmid
+    obtain ⟨e, s1, hs, _, hlt, hnext, hoth⟩ := progress s h w hmid
     rcases hnext with hmid1 | ⟨r, hr⟩
-    · obtain ⟨es, s', r, hrun, hret⟩ := ih s1 (ctl_step s s1 e h hs) w hmid1 (by omega)
-      exact ⟨e :: es, s', r, by simp only [run, hs]; exact hrun, hret⟩
-    · exact ⟨[e], s1, r, by simp [run, hs], hr⟩
+    · obtain ⟨es, s', r, hrun, hret, hoth'⟩ := ih s1 (ctl_step s s1 e h hs) w hmid1 (by omega)
+      exact ⟨e :: es, s', r, by simp only [run, hs]; exact hrun, hret,
+        fun t ht => (hoth' t ht).trans (hoth t ht)⟩
+    · exact ⟨[e], s1, r, by simp [run, hs], hr, hoth⟩
 
 end Tally.RootClose
